@@ -122,4 +122,13 @@ def minFirst (lt : α → α → Bool) : List α → Option α
   | [] => none
   | x :: xs => some (xs.foldl (fun best y => if lt y best then y else best) x)
 
+/-- Pop up to `n` times, collecting what comes out (`[heappop(h) for _ in range(n)]`, stopping
+early when the heap is empty). -/
+def drain (lt : α → α → Bool) : Nat → Array α → List α
+  | 0, _ => []
+  | n + 1, a =>
+    match heappop lt a with
+    | none => []
+    | some (x, a') => x :: drain lt n a'
+
 end ErdosVerif.Model.Heap
